@@ -546,10 +546,20 @@ def make_fatom(fname, p, ctx, power=1, fixed_order=None):
                 e_sw = subst(subst(subst(poly_to_expr(p), {holes[i]: tmp}), {holes[j]: holes[i]}), {tmp: holes[j]})
                 try:
                     p_sw = normalize(e_sw, ctx)
+                    _, key2 = _poly_form(p_sw, m)
+                    same = key2 == bestkey
+                    if not same and fname in ("exp", "log", "Phi", "phi", "sqrt", "cosh", "tanh"):
+                        # equal as rational functions (e.g. two rank-one updates applied in either order)?
+                        d_ = normalize(sub(e_sw, poly_to_expr(p)), ctx)
+                        if d_:
+                            d2_ = log_product_rule(d_, ctx)
+                            d_ = d2_ if d2_ is not None else d_
+                        if d_:
+                            d_ = clear_denominators(d_, ctx)
+                        same = not d_
                 except KernelError:
                     continue
-                _, key2 = _poly_form(p_sw, m)
-                if key2 == bestkey:
+                if same:
                     for g in groups:
                         if i in g or j in g:
                             g.update((i, j))
@@ -629,6 +639,21 @@ def _fn_of_canon(fname, p, ctx, power=1):
     if fname == "sqrt":
         if c is not None and c in (0, 1):
             return {_ONE_RAW: c} if c else {}
+    if fname in ("Phi", "phi", "cosh", "tanh") and p:
+        # parity: orient the argument so that its first monomial (canonical order) has a positive coefficient
+        first = min(p.items(), key=lambda kv: (tuple(_fkey(x) for x in kv[0][0]), kv[0][1]))
+        if first[1] < 0 and _inf_sign(p) is None:
+            negp = {k2: -v2 for k2, v2 in p.items()}
+            inner = _fn_of_canon(fname, negp, ctx, 1)
+            if fname in ("phi", "cosh"):          # even functions
+                res = inner
+            elif fname == "tanh":                 # odd
+                res = {k2: -v2 for k2, v2 in inner.items()}
+            else:                                 # Phi(-z) = 1 - Phi(z)
+                res = padd({_ONE_RAW: Fraction(1)}, {k2: -v2 for k2, v2 in inner.items()})
+            if power == 1:
+                return res
+            return raw(powr(poly_to_expr_raw(res), power), ctx) if power > 0 else _inv_poly(poly_to_expr_raw(res), ctx, -power)
     if fname in ("Phi", "phi", "step"):
         sg = _inf_sign(p)
         if sg is not None:
@@ -640,6 +665,16 @@ def _fn_of_canon(fname, p, ctx, power=1):
             return {_ONE_RAW: Fraction(1)} if c >= 0 else {}
     if fname == "sqrt" and len(p) == 1:
         (ff, nb), cc = next(iter(p.items()))
+        if nb == 0 and cc == 1 and len(ff) == 1 and ff[0][0] == "F" and ff[0][1] == "inv" and ff[0][4] == 1:
+            # sqrt(1/P) = 1/sqrt(P) for a positive polynomial P
+            innerP = form_to_expr(ctx.forms[ff[0][2]], dict(enumerate(ff[0][3])))
+            sq = raw(fn("sqrt", innerP), ctx)
+            return _inv_poly(poly_to_expr_raw(sq), ctx, power) if power > 0 else raw(powr(poly_to_expr_raw(sq), -power), ctx)
+        if nb == 0 and cc == 1 and len(ff) == 1 and ff[0][0] in ("A", "F") and ff[0][-1] == -1:
+            # sqrt(1/f) = 1/sqrt(f) for f > 0 (f reaches a square root only as a positive scale / variance)
+            pos = ff[0][:-1] + (1,)
+            inner = _fn_of_canon("sqrt", {((pos,), 0): Fraction(1)}, ctx, 1)
+            return _inv_poly(poly_to_expr_raw(inner), ctx, power) if power > 0 else raw(powr(poly_to_expr_raw(inner), -power), ctx)
         if nb == 0 and all(x[0] in ("A", "N", "F") and x[-1] % 2 == 0 for x in ff) and _is_square(cc):
             half = tuple((x[:-1] + (x[-1] // 2,)) for x in ff)
             out = {(half, frozenset()): _frac_sqrt(cc)}
@@ -1205,11 +1240,76 @@ def _is_sym(ctx, name, n):
 
 # ------------------------------------------------------------------ canonical monomials
 def canon_mono(f, b, ctx):
-    """canonical key for monomial up to bound var renaming and atom slot symmetries"""
+    """canonical key for a monomial up to bound-variable renaming and atom slot symmetries.
+    The monomial is split into connected components (factors linked through shared BOUND indices); each component is
+    canonicalised on its own and the components are sorted, so a product of many small contractions costs the sum, not the
+    product, of their permutation counts."""
     ctx.stats["canon"] += 1
     bl = sorted(b, key=lambda v: v.id)
     if not bl:
         return (_sortf(f, {}, ctx), 0)
+    bset = set(map(id, bl))
+    # union-find over factors through shared bound variables
+    owner = {}
+    parent = list(range(len(f)))
+
+    def find(x):
+        while parent[x] != x:
+            parent[x] = parent[parent[x]]
+            x = parent[x]
+        return x
+    for n, x in enumerate(f):
+        for i in _fidx(x):
+            for v in ivs_in(i):
+                if id(v) in bset:
+                    if id(v) in owner:
+                        ra, rb = find(owner[id(v)]), find(n)
+                        if ra != rb:
+                            parent[ra] = rb
+                    else:
+                        owner[id(v)] = n
+    comps = {}
+    for n in range(len(f)):
+        comps.setdefault(find(n), []).append(n)
+    parts = []
+    for root, members in comps.items():
+        fs = [f[n] for n in members]
+        bs = [v for v in bl if any(any(w is v for i in _fidx(x) for w in ivs_in(i)) for x in fs)]
+        key, cand = _canon_component(fs, bs, ctx)
+        parts.append((key, cand, len(bs)))
+    parts.sort(key=lambda t: t[0])
+    out = []
+    off = 0
+    for key, cand, nb in parts:
+        if off:
+            cand = tuple(_shift_bound(x, off) for x in cand)
+        out.extend(cand)
+        off += nb
+    return (tuple(sorted(out, key=_fkey)), len(bl))
+
+
+def _shift_bound(x, off):
+    def sh(i):
+        if isinstance(i, tuple):
+            if i and i[0] == "B":
+                return ("B", i[1] + off, i[2])
+            if i and i[0] == "app":
+                return ("app", i[1], tuple(sh(a) for a in i[2]))
+        return i
+    if x[0] == "A":
+        return ("A", x[1], tuple(sh(i) for i in x[2]), x[3])
+    if x[0] == "D":
+        return ("D", sh(x[1]), sh(x[2]))
+    if x[0] == "F":
+        return ("F", x[1], x[2], tuple(sh(i) for i in x[3]), x[4])
+    return x
+
+
+def _canon_component(f, bl, ctx):
+    """canonical form of one connected component: returns (sortable key, factor tuple with ('B',k,sort) names from 0)"""
+    if not bl:
+        cand = _sortf(f, {}, ctx)
+        return tuple(_fkey(x) for x in cand), cand
 
     def sig(v):
         s = []
@@ -1234,14 +1334,13 @@ def canon_mono(f, b, ctx):
         classes.setdefault(sig(v), []).append(v)
     keys = sorted(classes)
     groups = [classes[k] for k in keys]
-    # refine classes by neighbourhood (one round of colour refinement) to cut permutations
     groups = _refine(groups, f, ctx)
     total = 1
     for g in groups:
         for k in range(2, len(g) + 1):
             total *= k
     if total > ctx.max_perm:
-        raise KernelError(f"canonicalisation too large ({total} permutations, {len(bl)} bound indices)")
+        raise KernelError(f"canonicalisation too large ({total} permutations, {len(bl)} bound indices in one component)")
     best = None
     offs = []
     o = 0
@@ -1257,7 +1356,7 @@ def canon_mono(f, b, ctx):
         key = tuple(_fkey(x) for x in cand)
         if best is None or key < best[0]:
             best = (key, cand)
-    return (best[1], len(bl))
+    return best
 
 
 def _refine(groups, f, ctx):
@@ -1353,12 +1452,49 @@ def is_zero(e, ctx):
 def residual(e, ctx):
     p = normalize(e, ctx)
     if p:
+        p2 = log_product_rule(p, ctx)
+        if p2 is not None:
+            p = p2
+    if p:
         p = clear_denominators(p, ctx)
     if p:
         p2 = unify_fatoms(p, ctx)
         if p2 is not None:
             p = clear_denominators(p2, ctx) if p2 else p2
     return p
+
+
+def log_product_rule(p, ctx):
+    """completion step: a group of pure logarithm monomials  sum_i c_i log(A_i)  vanishes if  prod_i A_i^(c_i * D) == 1 as a
+    rational identity (D = common denominator of the c_i).  Returns the polynomial without the group, or None."""
+    logs = []
+    for (f, nb), c in p.items():
+        if nb == 0 and len(f) == 1 and f[0][0] == "F" and f[0][1] == "log" and f[0][4] == 1:
+            logs.append(((f, nb), c, f[0]))
+    if len(logs) < 2 or len(logs) > 8:
+        return None
+    from math import lcm
+    D = 1
+    for _, c, _ in logs:
+        D = lcm(D, c.denominator)
+    num, den = [("num", Fraction(1))], [("num", Fraction(1))]
+    for _, c, x in logs:
+        e = int(c * D)
+        arg = form_to_expr(ctx.forms[x[2]], dict(enumerate(x[3])))
+        if e > 0:
+            num.append(("pow", arg, e))
+        elif e < 0:
+            den.append(("pow", arg, -e))
+    try:
+        d = normalize(sub(("mul", tuple(num)), ("mul", tuple(den))), ctx)
+        if d:
+            d = clear_denominators(d, ctx)
+    except KernelError:
+        return None
+    if d:
+        return None
+    drop = set(k for k, _, _ in logs)
+    return {k: v for k, v in p.items() if k not in drop}
 
 
 def unify_fatoms(p, ctx, fnames=("exp", "log", "Phi", "phi", "sqrt", "cosh", "tanh", "step")):
@@ -1389,6 +1525,10 @@ def unify_fatoms(p, ctx, fnames=("exp", "log", "Phi", "phi", "sqrt", "cosh", "ta
                     e1 = form_to_expr(ctx.forms[k1], {i: hs[perm[i]] for i in range(n)})
                     e2 = form_to_expr(ctx.forms[k2], {i: hs[i] for i in range(n)})
                     d = normalize(sub(e1, e2), ctx)
+                    if d:
+                        d2 = log_product_rule(d, ctx)
+                        if d2 is not None:
+                            d = d2
                     if d:
                         d = clear_denominators(d, ctx)
                 except KernelError:
